@@ -124,7 +124,41 @@ def c06(run):
     run.rc = run.finish(assumptions=FRAME_ASSUME + ["DutyCycleReq is modelled as a whole byte (4-bit field + legacy 255): values 16..255 are DON'T-CARE"])
 
 
-PROPS = {"C01": c01, "C06": c06, "C07": c07, "C08": c08}
+CRYPTO_ASSUME = ["AES (FIPS-197), AES-CMAC (RFC 4493) are written in TLA+ (spec/base) and checked against the published vectors on every run",
+                 "projection tables harness/proj_frame.go", "keys/counters/payloads are seeded samples of their domains"]
+
+
+def c02(run):
+    run.selftest()
+    run.design_check("MicSym", workers=8)
+    t = run.record("crypto", "mic", n=T(run, 110, 3000))
+    run.validate("crypto", t, "Trace_crypto", label="(V) set/validate under single-parameter perturbations", chunk=T(run, 130, 220))
+    run.require_kinds("crypto/setmic", "crypto/validate")
+    run.rc = run.finish(assumptions=CRYPTO_ASSUME)
+
+
+def c03(run):
+    run.selftest()
+    run.design_check("CipherModel", workers=8, env={"VERIF_GEN": run.tier})
+    t = run.record("crypto", "cipher", n=T(run, 400, 12000))
+    run.validate("crypto", t, "Trace_crypto", label="(V) exported functions", chunk=T(run, 60, 200))
+    t = run.record("crypto", "method", n=T(run, 250, 6000))
+    run.validate("crypto", t, "Trace_crypto", label="(V) PHYPayload methods incl. error paths", chunk=T(run, 80, 250))
+    run.require_kinds("crypto/encfrm", "crypto/encfopts", "crypto/method")
+    run.rc = run.finish(assumptions=CRYPTO_ASSUME)
+
+
+def c04(run):
+    run.selftest()
+    run.design_check("MicSym", workers=8)
+    run.design_check("CipherModel", workers=8, env={"VERIF_GEN": run.tier})
+    t = run.record("crypto", "join", n=T(run, 300, 12000))
+    run.validate("crypto", t, "Trace_crypto", label="(V) join/rejoin/join-accept MIC + encryption", chunk=T(run, 150, 400))
+    run.require_kinds("crypto/joinmic", "crypto/encja", "crypto/decja")
+    run.rc = run.finish(assumptions=CRYPTO_ASSUME)
+
+
+PROPS = {"C01": c01, "C02": c02, "C03": c03, "C04": c04, "C06": c06, "C07": c07, "C08": c08}
 
 
 def replay(run, path):
